@@ -126,6 +126,7 @@ func crashCfg(prop string, cas int, tier string) CrashCfg {
 	c := CrashCfg{Name: prop, NOps: 30, DiskBlocks: 20000, Unstable: cas%3 != 2, Timed: cas%5 == 3, Lossy: 1, Depth2Every: 100, Depth2Stride: 5, CutStride: 1, Perturb: cas%2 == 1, Continue: true, ContinueEvery: 3}
 	switch prop {
 	case "C01":
+		c.Script = cas%8 == 3
 		c.BigFiles = cas%4 == 1
 		if tier == "thorough" {
 			c.BigFiles = cas%4 == 1
@@ -469,7 +470,7 @@ func propSpecs() map[string]PropSpec {
 		Plan: withConc(seqPlan("C10", 48, 600), "C10", 16, 150, false)})
 	add(PropSpec{ID: "C12", Level: "exploration", Classes: []string{"content", "crash"},
 		Rule: "block-recycling sequences on small disks (pattern f(write id, offset) never zero), shrink to aligned/unaligned sizes and regrow, free-space sweep at the end; every READ and whole-tree dump compared with the reference; distinct = distinct (procedure, outcome, argument class) triples",
-		Plan: withCrash(seqPlan("C12", 90, 900), "C12", 3, 40)})
+		Plan: withCrash(seqPlan("C12", 90, 900), "C12", 4, 40)})
 	add(PropSpec{ID: "C01", Level: "fault_enumeration", Classes: []string{"crash"},
 		Rule: "each seeded workload (all mutating RPCs, three stability levels, multi-block writes, truncations, big-file removal) is recorded on the crash disk; EVERY prefix cut of its trace, one (thorough: three) lossy image(s) per cut with un-barriered writes lost/reordered, and cuts of sampled recovery runs (depth 2) are recovered by the real MakeNfs; the recovered tree must equal reference state S_j for some lo<=j<=hi, handles preserved, fsck clean, continuation workload in lock-step with S_j; distinct = distinct (recovered tree, on-disk state, lo, hi) with lo<hi (an operation in flight or an unstable suffix)",
 		Plan: func(tier string, seed uint64) []Job {
